@@ -1,4 +1,5 @@
 import HeimdallModel.Lemmas.Table
+import HeimdallModel.Model.Repo
 /-!
 # C02 — the most specific matching path expression selects the rule
 
@@ -286,5 +287,21 @@ theorem c02_backtracking_flag_is_last_added (canAdd : List V → V → Bool) (t 
   rw [addPat_getNode canAdd t t' pat keys v bt h pat]
   simp only [if_true]
   cases getNode t pat <;> rfl
+
+/-- **Default rule or "no rule"**: the repository answers with the default rule (if there is one) or with "no rule"
+exactly when the lookup in the tree — most specific expression first, less specific ones only through backtracking —
+finds nothing; otherwise it answers with what the lookup found. -/
+theorem c02_default_or_none (s : Repo) (hasDefault : Bool) (q : ReqView) :
+    (lookup (repoMatcher q) s.index (lookupPath q) = none →
+        (hasDefault = true → s.findRule hasDefault q = .default) ∧
+        (hasDefault = false → s.findRule hasDefault q = .none)) ∧
+    (∀ v ps, lookup (repoMatcher q) s.index (lookupPath q) = some (v, ps) → s.findRule hasDefault q = .rule v ps) := by
+  unfold Repo.findRule
+  constructor
+  · intro h
+    rw [h]
+    constructor <;> intro hd <;> simp [hd]
+  · intro v ps h
+    rw [h]
 
 end Heimdall.Props.C02
